@@ -66,10 +66,6 @@ def intRe : R := .seq signPM (R.plus (.cls false [.range '0' '9']))
 def strBody (q : Char) : R := .alt (.seq (.chr '\\') (.chr q)) (.cls true [.chr q])
 def strRe (q : Char) : R := .seq (.chr q) (.seq (.star true (strBody q)) (.chr q))
 def stringRe : R := .alt (strRe '"') (strRe '\'')
-def boolRe : R :=
-  .seq (.alt (R.lits "True".toList) (.alt (R.lits "true".toList) (.alt (R.lits "False".toList)
-    (.alt (R.lits "false".toList) (.alt (.chr '0') (.chr '1')))))) (.wordB false)
-
 /-- a changed regex in `textx/lang.py` changes `Gen.Regexes` and breaks these -/
 theorem FLOAT_shape : Gen.Regexes.FLOAT = floatRe := rfl
 theorem STRICTFLOAT_shape : Gen.Regexes.STRICTFLOAT = strictRe := rfl
